@@ -4,14 +4,16 @@
     and restart, the watchdog - as a labelled transition system at the granularity of single store
     writes and of the hand-overs between goroutines.
 
-    Scope: tasks without pre-checks; task failures in every phase, the retry command, crash and restart,
-    the watchdog failing a task that is recorded running with no live run; store writes succeed.
-    (Cancel, continue/blocked/skipped, failing writes are outside this model; the journal monitor covers
-    them.)
+    Scope: pre-checks (skip / block, decided when a task is pushed; which check holds is the environment's
+    choice, the status rules of DoPreCheck are the model's), task failures in every phase, the retry and the
+    continue command, crash and restart, the watchdog failing a task that is recorded running with no live
+    run; store writes succeed.  (Cancel and failing writes are outside this model; the journal monitor
+    covers them.)
 
     Three switches restrict the histories; with all three off the model is the code as it is:
-    - [validate]: every accepted delivery carries the task's current persisted status (the executor's
-      guard, cancelMap, only refuses a delivery while a run of the task is registered);
+    - [validate]: every accepted delivery, and every pre-check verdict written by a push, is based on the
+      task's current persisted status (the executor's guard, cancelMap, only refuses a delivery while a run
+      of the task is registered; a push writes its verdict unconditionally);
     - [cmdquiet]: a command is issued, and picked up by the parser, only while nothing is in flight for
       the instance (no registered run, no queued completion event, no delivery under way);
     - [nonoop]: an executed command re-armed at least one task. *)
@@ -19,33 +21,39 @@ From Coq Require Import List ZArith Bool Lia.
 Import ListNotations.
 Local Open Scope Z_scope.
 
-Inductive est := SInit | SRunning | SEnding | SSuccess | SFailed | SRetrying.
+Inductive est := SInit | SRunning | SEnding | SSuccess | SFailed | SRetrying | SSkipped | SBlocked | SContinue.
 Definition est_eqb (a b : est) : bool :=
   match a, b with
-  | SInit, SInit | SRunning, SRunning | SEnding, SEnding | SSuccess, SSuccess | SFailed, SFailed | SRetrying, SRetrying => true
+  | SInit, SInit | SRunning, SRunning | SEnding, SEnding | SSuccess, SSuccess | SFailed, SFailed | SRetrying, SRetrying
+  | SSkipped, SSkipped | SBlocked, SBlocked | SContinue, SContinue => true
   | _, _ => false
   end.
 Lemma est_eqb_eq a b : est_eqb a b = true <-> a = b.
 Proof. destruct a, b; cbn; split; intro H; try reflexivity; try discriminate. Qed.
 
-Definition exec (s : est) : bool := match s with SInit | SRetrying | SEnding => true | _ => false end.
-Definition done (s : est) : bool := match s with SSuccess => true | _ => false end.
-Definition active (s : est) : bool := match s with SSuccess | SFailed => false | _ => true end.
+Definition exec (s : est) : bool := match s with SInit | SRetrying | SEnding | SContinue => true | _ => false end.
+Definition done (s : est) : bool := match s with SSuccess | SSkipped => true | _ => false end.
+Definition active (s : est) : bool := match s with SSuccess | SSkipped | SFailed | SBlocked => false | _ => true end.
+(** DoPreCheck: which snapshots can be skipped / blocked when pushed (a finished task and a task resumed in
+    'ending' are not checked; a continued task is not blocked again) *)
+Definition can_skip (s : est) : bool := match s with SInit | SRetrying | SContinue => true | _ => false end.
+Definition can_block (s : est) : bool := match s with SInit | SRetrying => true | _ => false end.
 
 (** the executor's view of a task: nothing / accepted with a snapshot / phases / terminal write done, the
     run still registered (the window between the last status write and cancelMap.Delete + EntryTaskIns) *)
 Inductive rpc := RNone | RQueued (s : est) | RRunning | RInMain | REnding | RDone (ev : est).
 Definition is_none (r : rpc) : bool := match r with RNone => true | _ => false end.
 
-Inductive ist := IRunning | ISuccess | IFailed.
+Inductive ist := IRunning | ISuccess | IFailed | IBlocked.
 Inductive phase := PIdle | PArm | PInit | PDown.
-Inductive tverdict := VRunning | VSuccess | VFailed.
+Inductive tverdict := VRunning | VSuccess | VFailed | VBlocked.
 
 Record eng := { store : Z -> est;        (* persisted task status *)
                 know : Z -> est;         (* the parser's tree (meaningful while [tree]) *)
                 runs : Z -> rpc;         (* the executor *)
                 started : Z -> bool;     (* ghost: the main action started in the current attempt *)
                 evq : list (Z * est);    (* completion events queued for the parser worker *)
+                pushq : list (Z * est);  (* tasks a pusher has read (with that snapshot) and not yet pushed *)
                 pend : list (Z * est);   (* deliveries (task, snapshot status) on their way to the executor *)
                 ins : ist;               (* persisted instance status *)
                 tree : bool;             (* the parser holds a tree for the instance *)
@@ -55,28 +63,18 @@ Record eng := { store : Z -> est;        (* persisted task status *)
 
 Definition upd {A} (f : Z -> A) (k : Z) (v : A) : Z -> A := fun x => if Z.eqb x k then v else f x.
 
-Definition set_store (s : eng) v := {| store := v; know := know s; runs := runs s; started := started s; evq := evq s;
-  pend := pend s; ins := ins s; tree := tree s; ph := ph s; armed := armed s; cmd := cmd s |}.
-Definition set_know (s : eng) v := {| store := store s; know := v; runs := runs s; started := started s; evq := evq s;
-  pend := pend s; ins := ins s; tree := tree s; ph := ph s; armed := armed s; cmd := cmd s |}.
-Definition set_runs (s : eng) v := {| store := store s; know := know s; runs := v; started := started s; evq := evq s;
-  pend := pend s; ins := ins s; tree := tree s; ph := ph s; armed := armed s; cmd := cmd s |}.
-Definition set_started (s : eng) v := {| store := store s; know := know s; runs := runs s; started := v; evq := evq s;
-  pend := pend s; ins := ins s; tree := tree s; ph := ph s; armed := armed s; cmd := cmd s |}.
-Definition set_evq (s : eng) v := {| store := store s; know := know s; runs := runs s; started := started s; evq := v;
-  pend := pend s; ins := ins s; tree := tree s; ph := ph s; armed := armed s; cmd := cmd s |}.
-Definition set_pend (s : eng) v := {| store := store s; know := know s; runs := runs s; started := started s; evq := evq s;
-  pend := v; ins := ins s; tree := tree s; ph := ph s; armed := armed s; cmd := cmd s |}.
-Definition set_ins (s : eng) v := {| store := store s; know := know s; runs := runs s; started := started s; evq := evq s;
-  pend := pend s; ins := v; tree := tree s; ph := ph s; armed := armed s; cmd := cmd s |}.
-Definition set_tree (s : eng) v := {| store := store s; know := know s; runs := runs s; started := started s; evq := evq s;
-  pend := pend s; ins := ins s; tree := v; ph := ph s; armed := armed s; cmd := cmd s |}.
-Definition set_ph (s : eng) v := {| store := store s; know := know s; runs := runs s; started := started s; evq := evq s;
-  pend := pend s; ins := ins s; tree := tree s; ph := v; armed := armed s; cmd := cmd s |}.
-Definition set_armed (s : eng) v := {| store := store s; know := know s; runs := runs s; started := started s; evq := evq s;
-  pend := pend s; ins := ins s; tree := tree s; ph := ph s; armed := v; cmd := cmd s |}.
-Definition set_cmd (s : eng) v := {| store := store s; know := know s; runs := runs s; started := started s; evq := evq s;
-  pend := pend s; ins := ins s; tree := tree s; ph := ph s; armed := armed s; cmd := v |}.
+Definition set_store (s : eng) v := {| store := v; know := know s; runs := runs s; started := started s; evq := evq s; pushq := pushq s; pend := pend s; ins := ins s; tree := tree s; ph := ph s; armed := armed s; cmd := cmd s |}.
+Definition set_know (s : eng) v := {| store := store s; know := v; runs := runs s; started := started s; evq := evq s; pushq := pushq s; pend := pend s; ins := ins s; tree := tree s; ph := ph s; armed := armed s; cmd := cmd s |}.
+Definition set_runs (s : eng) v := {| store := store s; know := know s; runs := v; started := started s; evq := evq s; pushq := pushq s; pend := pend s; ins := ins s; tree := tree s; ph := ph s; armed := armed s; cmd := cmd s |}.
+Definition set_started (s : eng) v := {| store := store s; know := know s; runs := runs s; started := v; evq := evq s; pushq := pushq s; pend := pend s; ins := ins s; tree := tree s; ph := ph s; armed := armed s; cmd := cmd s |}.
+Definition set_evq (s : eng) v := {| store := store s; know := know s; runs := runs s; started := started s; evq := v; pushq := pushq s; pend := pend s; ins := ins s; tree := tree s; ph := ph s; armed := armed s; cmd := cmd s |}.
+Definition set_pushq (s : eng) v := {| store := store s; know := know s; runs := runs s; started := started s; evq := evq s; pushq := v; pend := pend s; ins := ins s; tree := tree s; ph := ph s; armed := armed s; cmd := cmd s |}.
+Definition set_pend (s : eng) v := {| store := store s; know := know s; runs := runs s; started := started s; evq := evq s; pushq := pushq s; pend := v; ins := ins s; tree := tree s; ph := ph s; armed := armed s; cmd := cmd s |}.
+Definition set_ins (s : eng) v := {| store := store s; know := know s; runs := runs s; started := started s; evq := evq s; pushq := pushq s; pend := pend s; ins := v; tree := tree s; ph := ph s; armed := armed s; cmd := cmd s |}.
+Definition set_tree (s : eng) v := {| store := store s; know := know s; runs := runs s; started := started s; evq := evq s; pushq := pushq s; pend := pend s; ins := ins s; tree := v; ph := ph s; armed := armed s; cmd := cmd s |}.
+Definition set_ph (s : eng) v := {| store := store s; know := know s; runs := runs s; started := started s; evq := evq s; pushq := pushq s; pend := pend s; ins := ins s; tree := tree s; ph := v; armed := armed s; cmd := cmd s |}.
+Definition set_armed (s : eng) v := {| store := store s; know := know s; runs := runs s; started := started s; evq := evq s; pushq := pushq s; pend := pend s; ins := ins s; tree := tree s; ph := ph s; armed := v; cmd := cmd s |}.
+Definition set_cmd (s : eng) v := {| store := store s; know := know s; runs := runs s; started := started s; evq := evq s; pushq := pushq s; pend := pend s; ins := ins s; tree := tree s; ph := ph s; armed := armed s; cmd := v |}.
 
 Inductive label :=
 | Accept (t : Z) (s : est) | Drop (t : Z) (s : est)
@@ -84,12 +82,17 @@ Inductive label :=
 | BeforeErr (t : Z)      (* the before-hook fails (it runs before 'running' is stored): init -> failed *)
 | RetryErr (t : Z)       (* the retry-hook fails: retrying -> failed *)
 | Finish (t : Z)         (* the run is unregistered and its completion event handed to the parser *)
-| Deliver                (* the parser worker handles the next completion event (executeNext) *)
+| Deliver (pb : bool)    (* the parser worker handles the next completion event (executeNext); [pb]: when both a failed
+                            and a blocked task are reached, the walk meets the blocked one last *)
+| PushRun (t : Z) (s : est)    (* Executor.Push: no pre-check fires, the task is handed to the executor *)
+| PushSkip (t : Z) (s : est)   (* ... a skip check fires: 'skipped' is stored, the parser is told *)
+| PushBlock (t : Z) (s : est)  (* ... a block check fires: 'blocked' is stored, the parser is told *)
 | CmdIssue               (* the commander stores a retry command *)
 | CmdBegin               (* the parser's command watcher picks it up *)
 | Rearm (t : Z)          (* ... re-arms a failed target: failed -> retrying *)
+| ContArm (t : Z)        (* ... (continue command) re-arms a blocked target: blocked -> continue *)
 | CmdPatch               (* ... clears the command and marks the instance running *)
-| Rebuild                (* InitialDagIns: after a command that re-armed a task, or at restart *)
+| Rebuild (pb : bool)    (* InitialDagIns: after a command that re-armed a task, or at restart *)
 | RestartIdle            (* restart of a worker whose instance is not recorded running: nothing is rebuilt *)
 | WdFail (t : Z)         (* the watchdog fails a task recorded running with no live run, and the instance *)
 | Crash.                 (* the worker dies: tree, runs, queued events and deliveries are gone *)
@@ -101,7 +104,8 @@ Fixpoint remove1 (p : Z * est) (l : list (Z * est)) : option (list (Z * est)) :=
               else match remove1 p r with Some r' => Some (x :: r') | None => None end
   end.
 
-Definition ist_of (v : tverdict) : ist := match v with VRunning => IRunning | VSuccess => ISuccess | VFailed => IFailed end.
+Definition ist_of (v : tverdict) : ist :=
+  match v with VRunning => IRunning | VSuccess => ISuccess | VFailed => IFailed | VBlocked => IBlocked end.
 
 Section G.
   Variable tasks : list Z.
@@ -114,36 +118,49 @@ Section G.
   Definition snap (f : Z -> est) (l : list Z) : list (Z * est) := map (fun c => (c, f c)) l.
 
   (** TaskNode.ComputeStatus over the nodes the walk reaches (all parents done): running when one of them is
-      neither finished nor failed, else failed when one is failed, else success *)
-  Definition verdict_of (f : Z -> est) : tverdict :=
+      neither finished nor failed nor blocked; else failed / blocked after the last such node the walk meets
+      ([pb] = a blocked one, when there are both); else success *)
+  Definition verdict_of (pb : bool) (f : Z -> est) : tverdict :=
     if existsb (fun t => parents_done f t && active (f t)) tasks then VRunning
-    else if existsb (fun t => parents_done f t && est_eqb (f t) SFailed) tasks then VFailed
-    else VSuccess.
+    else
+      let hf := existsb (fun t => parents_done f t && est_eqb (f t) SFailed) tasks in
+      let hb := existsb (fun t => parents_done f t && est_eqb (f t) SBlocked) tasks in
+      if hf && hb then (if pb then VBlocked else VFailed)
+      else if hf then VFailed else if hb then VBlocked else VSuccess.
 
   Definition quiet (s : eng) : bool :=
-    match evq s, pend s with [], [] => forallb (fun t => is_none (runs s t)) tasks | _, _ => false end.
+    match evq s, pend s, pushq s with [], [], [] => forallb (fun t => is_none (runs s t)) tasks | _, _, _ => false end.
 
   (** the instance has been instantiated and marked running; the worker has not looked at it yet *)
   Definition boot : eng :=
     let st := fun _ : Z => SInit in
-    {| store := st; know := st; runs := fun _ => RNone; started := fun _ => false; evq := []; pend := [];
+    {| store := st; know := st; runs := fun _ => RNone; started := fun _ => false; evq := []; pushq := []; pend := [];
        ins := IRunning; tree := false; ph := PDown; armed := false; cmd := false |}.
 
   Definition guard_ok (s : eng) (t : Z) (sn : est) : bool :=
     is_none (runs s t) && exec sn && (negb validate || est_eqb (store s t) sn).
 
+  (** [validate] for a pre-check verdict: the snapshot is the task's persisted status and the executor holds
+      nothing for the task (Push itself checks nothing: it writes the verdict unconditionally) *)
+  Definition push_ok (s : eng) (t : Z) (sn : est) : bool :=
+    negb validate || (est_eqb (store s t) sn && is_none (runs s t) && negb (existsb (fun p => Z.eqb (fst p) t) (pend s))).
+
   (** a run writes its last status [v]; it stays registered until [Finish] *)
   Definition end_run (s : eng) (t : Z) (v : est) : eng := set_runs (set_store s (upd (store s) t v)) (upd (runs s) t (RDone v)).
 
   (** InitialDagIns *)
-  Definition initial (s : eng) : eng :=
+  Definition initial (pb : bool) (s : eng) : eng :=
     match filter (pushable (store s)) tasks with
-    | [] => match verdict_of (store s) with
+    | [] => match verdict_of pb (store s) with
             | VRunning => s
             | v => set_ins s (ist_of v)
             end
-    | ex => set_pend (set_tree (set_know s (store s)) true) (pend s ++ snap (store s) ex)
+    | ex => set_pushq (set_tree (set_know s (store s)) true) (pushq s ++ snap (store s) ex)
     end.
+
+  (** Push with a pre-check that fires: the verdict is stored and the parser is told, no run is registered *)
+  Definition push_verdict (s : eng) (t : Z) (v : est) (q' : list (Z * est)) : eng :=
+    set_evq (set_pushq (set_store s (upd (store s) t v)) q') (evq s ++ [(t, v)]).
 
   Definition step (s : eng) (l : label) : option eng :=
     match l with
@@ -159,7 +176,7 @@ Section G.
         end
     | StartWrite t =>
         match runs s t with
-        | RQueued SInit => Some (set_runs (set_store s (upd (store s) t SRunning)) (upd (runs s) t RRunning))
+        | RQueued SInit | RQueued SContinue => Some (set_runs (set_store s (upd (store s) t SRunning)) (upd (runs s) t RRunning))
         | RQueued SRetrying => Some (end_run s t SInit)   (* the retry hook ran; the task goes back to the parser as init *)
         | RQueued SEnding => Some (set_runs s (upd (runs s) t REnding))
         | _ => None
@@ -177,14 +194,14 @@ Section G.
     | MainErr t => match runs s t with RInMain => Some (end_run s t SFailed) | _ => None end
     | AfterOk t => match runs s t with REnding => Some (end_run s t SSuccess) | _ => None end
     | AfterErr t => match runs s t with REnding => Some (end_run s t SFailed) | _ => None end
-    | BeforeErr t => match runs s t with RQueued SInit => Some (end_run s t SFailed) | _ => None end
+    | BeforeErr t => match runs s t with RQueued SInit | RQueued SContinue => Some (end_run s t SFailed) | _ => None end
     | RetryErr t => match runs s t with RQueued SRetrying => Some (end_run s t SFailed) | _ => None end
     | Finish t =>
         match runs s t with
         | RDone ev => Some (set_evq (set_runs s (upd (runs s) t RNone)) (evq s ++ [(t, ev)]))
         | _ => None
         end
-    | Deliver =>
+    | Deliver pb =>
         match evq s with
         | (t, st) :: r =>
             let s0 := set_evq s r in
@@ -192,14 +209,29 @@ Section G.
               let k' := upd (know s) t st in
               let s1 := set_know s0 k' in
               match (if done st then filter (pushable k') (children t) else if est_eqb st SInit then [t] else []) with
-              | [] => match verdict_of k' with
+              | [] => match verdict_of pb k' with
                       | VRunning => Some s1
                       | v => Some (set_tree (set_ins s1 (ist_of v)) false)
                       end
-              | next => Some (set_pend s1 (pend s ++ snap (store s) next))
+              | next => Some (set_pushq s1 (pushq s ++ snap (store s) next))
               end
             else Some s0     (* no tree, or the node is not reached by the walk: an error is logged, nothing changes *)
         | [] => None
+        end
+    | PushRun t sn =>
+        match remove1 (t, sn) (pushq s) with
+        | Some q' => Some (set_pend (set_pushq s q') (pend s ++ [(t, sn)]))
+        | None => None
+        end
+    | PushSkip t sn =>
+        match remove1 (t, sn) (pushq s) with
+        | Some q' => if can_skip sn && push_ok s t sn then Some (push_verdict s t SSkipped q') else None
+        | None => None
+        end
+    | PushBlock t sn =>
+        match remove1 (t, sn) (pushq s) with
+        | Some q' => if can_block sn && push_ok s t sn then Some (push_verdict s t SBlocked q') else None
+        | None => None
         end
     | CmdIssue =>
         if negb (cmd s) && (negb cmdquiet || quiet s) then Some (set_cmd s true) else None
@@ -215,6 +247,13 @@ Section G.
                            else None
         | _, _ => None
         end
+    | ContArm t =>
+        match ph s, store s t with
+        | PArm, SBlocked => if existsb (Z.eqb t) tasks
+                            then Some (set_armed (set_store s (upd (store s) t SContinue)) true)
+                            else None
+        | _, _ => None
+        end
     | CmdPatch =>
         match ph s with
         | PArm => if armed s then Some (set_ph (set_cmd (set_ins s IRunning) false) PInit)
@@ -222,10 +261,10 @@ Section G.
                   else Some (set_ph (set_cmd (set_ins s IRunning) false) PIdle)
         | _ => None
         end
-    | Rebuild =>
+    | Rebuild pb =>
         match ph s with
-        | PInit => Some (set_ph (initial s) PIdle)
-        | PDown => match ins s with IRunning => Some (set_ph (initial s) PIdle) | _ => None end
+        | PInit => Some (set_ph (initial pb s) PIdle)
+        | PDown => match ins s with IRunning => Some (set_ph (initial pb s) PIdle) | _ => None end
         | _ => None
         end
     | RestartIdle =>
@@ -240,7 +279,7 @@ Section G.
         | _, _ => None
         end
     | Crash =>
-        Some (set_armed (set_ph (set_tree (set_pend (set_evq (set_runs s (fun _ => RNone)) []) []) false) PDown) false)
+        Some (set_armed (set_ph (set_tree (set_pushq (set_pend (set_evq (set_runs s (fun _ => RNone)) []) []) []) false) PDown) false)
     end.
 
   Fixpoint run (s : eng) (ls : list label) : option eng :=
